@@ -75,7 +75,7 @@ def setup_env(mode=None):
         os.makedirs(cache_root, exist_ok=True)
         d = os.path.join(cache_root, tree_hash() + "-" + mode)
         if not os.path.isdir(d):
-            _prune(cache_root, keep=5)
+            _prune(cache_root, keep=int(os.environ.get("VERIF_CACHE_KEEP", "12")))
             os.makedirs(d, exist_ok=True)
         else:
             os.utime(d, None)
